@@ -268,8 +268,9 @@ def run(ctx: Ctx, rs: RuleSet, tier: str):
              'stands for a dataclass default_factory', 1)
   loop_heads = {m for m in g.nodes() if g.kind[m] == 'for'}
   fac_tests = [m for m in g.nodes() if g.kind[m] == 'if' and any(
-      isinstance(c, ast.Call) and unparse(c.func).endswith(
-          '_field_uses_default_factory') for c in ast.walk(g.stmt[m].test))]
+      isinstance(c, ast.Call) and unparse(c.func).split('.')[-1].lstrip(
+          '_') == 'field_uses_default_factory'
+      for c in ast.walk(g.stmt[m].test))]
   for n, e, _ in stores:
     ok = any(g.dominated_by(n, {m}, labels=cfg_lib.NO_EXC) and n not in g.reach(
         [x for x, lab in g.succ[m] if lab == 'true'], blocked=loop_heads | {m},
